@@ -1093,6 +1093,8 @@ decl(struct scope *s, struct func *f)
 					error(&tok.loc, "function definition not allowed");
 				if (d->defined)
 					error(&tok.loc, "function '%s' redefined", name);
+				if (t->base->incomplete && t->base != &typevoid)
+					error(&tok.loc, "function '%s' is defined with incomplete return type", name);
 				for (p = t->u.func.params; p; p = p->next) {
 					if (p->type->incomplete)
 						error(&tok.loc, "parameter '%s' of function definition has incomplete type", p->name ? p->name : "");
